@@ -18,6 +18,8 @@ PID = 'C16'
 
 def tlc_dump(work, module, consts, o: Outcome, simulate=None, timeout=3600):
     inv = 'ModelWF' if module == 'MC_Graph' else 'ModelWFUnlessSharedMutation'
+    if module == 'MC_Graph' and 'Interp' not in consts:
+        consts = consts + 'Interp = FALSE\n'
     cfg = ('INIT Init\nNEXT Next\nVIEW View\nCONSTRAINT Bound\nACTION_CONSTRAINT DumpT\n'
            f'INVARIANT {inv}\nPROPERTY ModelFailureAtomic\nCHECK_DEADLOCK FALSE\nCONSTANTS\n' + consts)
     args = []
@@ -42,6 +44,8 @@ def replay_transitions(trans, make_session, o: Outcome, chained=False):
             sidx[k] = len(states)
         return sidx[k]
 
+    if chained:
+        trans = [t for beh in taken_behaviours(trans) for t in beh]
     cur_path = None
     for t in trans:
         pre_k = key(t['pre'])
@@ -109,6 +113,7 @@ def run(tier, seed):
     with Scratch() as work:
         if tier == 'quick':
             plan = [('graph_d3', 'MC_Graph', 'Depth = 3\nRich = TRUE\n', None, 'graph'),
+                    ('fgraph_d5', 'MC_Graph', 'Depth = 5\nRich = FALSE\nInterp = TRUE\n', None, 'fgraph'),
                     ('hrg_d3', 'MC_HRG', HRG_C.format(d=3), None, 'hrg'),
                     ('fgg_d3', 'MC_HRG', FGG_C.format(d=3), None, 'hrg')]
             sim = [('graph_sim', 'MC_Graph', 'Depth = 10\nRich = TRUE\n', (150, 10, seed + 1), 'graph'),
@@ -116,6 +121,7 @@ def run(tier, seed):
         else:
             plan = [('graph_d3', 'MC_Graph', 'Depth = 3\nRich = TRUE\n', None, 'graph'),
                     ('graph_d4', 'MC_Graph', 'Depth = 4\nRich = FALSE\n', None, 'graph'),
+                    ('fgraph_d6', 'MC_Graph', 'Depth = 6\nRich = FALSE\nInterp = TRUE\n', None, 'fgraph'),
                     ('hrg_d4', 'MC_HRG', HRG_C.format(d=4), None, 'hrg'),
                     ('fgg_d4', 'MC_HRG', FGG_C.format(d=4), None, 'hrg')]
             sim = [('graph_sim', 'MC_Graph', 'Depth = 14\nRich = TRUE\n', (3000, 14, seed + 1), 'graph'),
